@@ -44,14 +44,14 @@ def canon_msg(m):
 
 class Driver:
     """Runs one event script against the real stack."""
-    def __init__(self):
+    def __init__(self, mid0=0, token0=0):
         import aiocoap, aiocoap.resource as resource
         from aiocoap import Message
         import simloop, simnet
         self.aiocoap = aiocoap
         self.loop = simloop.VLoop()
         logging.getLogger("coap").setLevel(logging.CRITICAL); logging.getLogger("coap-server").setLevel(logging.CRITICAL)
-        simnet.patch_random(None, 0, 0)
+        simnet.patch_random(None, mid0, token0)
         drv = self
         self.h = []; self.c = []
         self.futs = []          # handler futures in start order
@@ -145,8 +145,10 @@ class Driver:
 
 
 def run_script(events):
-    d = Driver()
-    res = d.run(events)
+    mid0, token0, evs = split_init(events)
+    d = Driver(mid0, token0)
+    res = d.run(evs)
+    if len(evs) != len(events): res = [{"t": 0, "send": [], "h": [], "c": [], "x": []}] + res
     # leave nothing behind: cancel what is still pending in the private loop
     for f in d.futs:
         if not f.done(): f.cancel()
@@ -205,8 +207,13 @@ def W(t, c, mid, tok, path=0, nr=None, obs=None):
     if obs is not None: w["obs"] = obs
     return w
 
-def own_token(q):   # token of the q-th client request (token counter starts at 0 in the harness)
-    n = q + 1; return list(n.to_bytes(8, "big").lstrip(b"\0"))
+def own_token(q, token0=0):   # token of the q-th client request (the harness pins the initial token counter, 0 unless an "init" event says otherwise)
+    n = (token0 + q + 1) % 2 ** 64; return list(n.to_bytes(8, "big").lstrip(b"\0"))
+
+def split_init(events):
+    """a script may start with ["init", mid0, token0]: the initial message-id / token counters (to reach the wrap-arounds)"""
+    if events and events[0][0] == "init": return events[0][1], events[0][2], events[1:]
+    return 0, 0, events
 
 def gen_table(rng):
     """one cell of the reaction table, with a random context before and a random timing after"""
@@ -303,6 +310,24 @@ def gen_giveup(rng):
     evs.append(["respond", 0, 69, None, [2]])
     return evs
 
+def gen_wrap(rng):
+    """the 16-bit message-id counter and the 64-bit token counter wrap around while messages of ours are in flight"""
+    mid0 = rng.choice([65533, 65534, 65535, 65535]); token0 = rng.choice([0, 2 ** 64 - 3, 2 ** 64 - 2, 2 ** 64 - 1])
+    evs = [["init", mid0, token0]]; nreq = 0; slow = 0
+    for _ in range(rng.randrange(4, 12)):
+        k = rng.random(); peer = rng.choice([0, 1, 2, 100])
+        if k < 0.4:
+            evs.append(["request", peer, rng.choice([None, 1, 1, 0]), rng.random() < 0.2]); nreq += 1
+        elif k < 0.55:
+            evs.append(["recv", peer, 1, W(rng.choice([NON, CON]), 1, rng.randrange(1, 5), [rng.randrange(3)], rng.choice([0, 1, 2]))]); slow += 1
+        elif k < 0.7:
+            evs.append(["recv", peer, 1, W(rng.choice([ACK, RST, ACK]), rng.choice([0, 0, 69]), (mid0 + rng.randrange(0, 6)) % 65536, own_token(rng.randrange(0, nreq + 1), token0) if rng.random() < 0.7 else [])])
+        elif k < 0.8:
+            evs.append(["recv", peer, 1, W(rng.choice([CON, NON]), 69, rng.randrange(100, 105), own_token(rng.randrange(0, nreq + 1), token0))])
+        elif k < 0.9: evs.append(["fire"])
+        else: evs += [["wait", 100000], ["fire"], ["respond", rng.randrange(0, slow + 1), 69, None, [1]]]
+    return evs
+
 def table_cells():
     """the full finite table, deterministic: type x code class x token known x received on multicast x handler/No-Response"""
     for t in range(4):
@@ -333,26 +358,30 @@ class C10(fw.Property):
                  "+ differential correspondence of the model with the real Context/TokenManager/MessageManager/Site stack under a virtual-time loop")
     level_text = ("Theorems (closed under the global context) over a hand-written executable model of MessageManager's dispatch slice, the TokenManager parts it "
                   "talks to and udp6's multicast flags: the full reaction table (type x code class x token known x received on multicast) for every state "
-                  "satisfying an invariant that is proved to hold along every event history; no CON to a multicast destination for every history; every ACK "
-                  "under a peer's message ID consumes one recorded piggy-back opportunity, hence a fresh CON request is acknowledged at most once for every "
-                  "history; send_message's piggy-back / empty-ACK / No-Response / NON-by-default / fresh-mid cells for every state. The model is tied to the code "
-                  "by running both on the same event scripts (every datagram, handler start/cancel, delivery, failure, loop exception and the clock compared).")
-    level_note = ("PARTIAL: 'acknowledged at least once' (the opportunity and its timer persist until answer or timer consumes them) is proved per step only, not "
-                  "over histories. Side condition O3 (token reused while the request is unacknowledged) is explicit in the theorems and refuted without it. "
-                  "Three defects found by this check (error responses ignored No-Response; suppressed response to a CON request received on multicast raised "
-                  "TypeError and the request was never acknowledged; give-up while a multicast request is pending raised AttributeError in the loop) are fixed in "
-                  "/repo (3a77ec2, 95af16f, a3add01); the model follows the fixed code, the oracle keeps their signatures, reverting each commit is caught. "
-                  "Trusted: Coq kernel + vm_compute; the hand-written model (validated by correspondence only); the virtual-time loop as ideal timer "
-                  "service; recording transport. Not modelled: shutdown branches, transport errors, server-side observe, blockwise, message-id wrap-around.")
+                  "satisfying an invariant proved along every event history; no CON to a multicast destination for every history; a second invariant "
+                  "(every recorded piggy-back opportunity has exactly one pending empty-ACK handle, handle numbers unique, now <= due) along every history, and from "
+                  "it: for every history from the initial state a fresh CON request has received at most one ACK under its message ID at any time and exactly one "
+                  "once the clock has passed arrival + EMPTY_ACK_DELAY, whatever the handler does; the response travels in that ACK whenever it is ready strictly "
+                  "before that instant, and an ACK sent earlier than the response implies the clock reached it (only the timer can send it); afterwards the response "
+                  "is separate with a fresh message ID and the request's token. send_message's No-Response / NON-by-default cells for every state. The model is tied "
+                  "to the code by running both on the same event scripts (every datagram, handler start/cancel, delivery, failure, loop exception, the clock).")
+    level_note = ("Side conditions, explicit in the theorems: O3 (the peer does not reuse the (peer, token) pair in another request while the first is pending; refuted "
+                  "without it), no other message from that peer with the same message ID in the history (duplicates are C04's replay), the application sends no "
+                  "ACK-typed requests, no opportunity is recorded under the (peer, mid) at arrival. Shutdown and transport errors are outside the model (no such "
+                  "events; C18) and therefore outside the theorems. Time: Fire runs the pending handle with the least (due, creation number) and sets the clock to "
+                  "max(now, due); Wait never passes a due handle. Three defects found by this check are fixed in /repo (3a77ec2, 95af16f, a3add01); the oracle keeps "
+                  "their signatures. Trusted: Coq kernel + vm_compute; the hand-written model (validated by correspondence only); the virtual-time loop as ideal "
+                  "timer service; recording transport. Not modelled: shutdown, transport errors, server-side observe, blockwise.")
     rule = ("streams: table = one cell of type x code class x token known x unicast/multicast x handler/No-Response with random context and timing; "
             "cells = the full table enumerated; piggy = request to a slow handler answered around EMPTY_ACK_DELAY (99999/100000/100001 us, timer before/after); "
             "scenario = adversarial interleavings over small mid/token spaces (duplicates, token reuse, overriding requests, backlog, give-up); "
+            "wrap = scripts starting at message-id 65533..65535 / token 2^64-3..2^64-1 so that both counters wrap with messages in flight; "
             "giveup = an unacknowledged CON of ours retransmitted until give-up with a multicast request pending / a backlogged CON / a running handler. "
             "Non-trivial = at least one datagram was sent by the stack; distinct by full script.")
     trusted_base = ["hand-written Model/C10.v (validated by all correspondence streams (cells, table, piggy, scenario, giveup, corpus) on every run)",
                     "harness: virtual-time loop (ideal timers), recording message interface, random pinned (mid0 = token0 = 0, ACK_TIMEOUT factor 1.0)"]
     assumptions = ["handlers answer once (no observe on the server side); shutdown and transport errors are C18's; blockwise not exercised",
-                   "the 16-bit message-id counter does not wrap within the lifetime of an exchange"]
+                   "two exchanges of ours with the same (remote, message-id) are never alive at once (needs 65536 messages within one exchange lifetime); the wrap of the counter itself is modelled and exercised"]
 
     def gen_cases(self, tier, rng, n):
         if tier == "thorough":
@@ -366,6 +395,7 @@ class C10(fw.Property):
             if m < 4: yield "table", gen_table(rng)
             elif m < 7: yield "piggy", gen_piggy(rng)
             elif m < 9: yield "scenario", gen_scenario(rng)
+            elif k % 20 == 9: yield "wrap", gen_wrap(rng)
             else: yield "giveup", gen_giveup(rng)
 
     def setup(self):
@@ -373,9 +403,11 @@ class C10(fw.Property):
     def impl(self, stream, inp):
         return run_script(inp)
     def model(self, stream, inp):
-        return "snd (run (init 0 0) %s)" % glist([g_event(e) for e in inp])
+        mid0, token0, evs = split_init(inp)
+        return "snd (run (init %s %s) %s)" % (gz(mid0), gz(token0), glist([g_event(e) for e in evs]))
     def decode(self, stream, inp, parsed):
-        return [d_outputs(t, outs) for (t, outs) in fw.plain(parsed)]
+        pre = [{"t": 0, "send": [], "h": [], "c": [], "x": []}] if inp and inp[0][0] == "init" else []
+        return pre + [d_outputs(t, outs) for (t, outs) in fw.plain(parsed)]
     def nontrivial(self, stream, inp, res):
         if isinstance(res, list) and any(r["send"] for r in res): return fw.jdump(inp)
         return None
@@ -398,6 +430,7 @@ def oracle(evs, res):
         for s in r["send"]:
             if s[0] >= 100 and s[2] == CON: return ("C10:con-to-multicast", "event %d %r: confirmable message %r sent to a multicast destination" % (i, ev, s))
             if s[1] == 2: return ("C10:multicast-source-address", "event %d %r: %r sent with the multicast address it was received on as source" % (i, ev, s))
+    token0 = evs[0][2] if evs and evs[0][0] == "init" else 0
     pending = {}      # q -> (peer or None, token, observe): oracle's own account of outstanding client requests
     seen = {}         # (peer, mid) -> (time first seen, replies sent for it) for request-coded messages (deduplication, RFC 7252 4.5)
     reqs = []         # fresh CON / NON requests
@@ -411,7 +444,7 @@ def oracle(evs, res):
             _, peer, mt, observe = ev; q = nreq; nreq += 1
             failed = any(c[0] == "fail" and c[1] == q for c in r["c"])
             if mt == CON and peer >= 100 and not failed: return ("C10:con-to-multicast-not-refused", "event %d: CON request to multicast was not refused" % i)
-            if not failed: pending[q] = (None if peer >= 100 else peer, own_token(q), observe)
+            if not failed: pending[q] = (None if peer >= 100 else peer, own_token(q, token0), observe)
             if replies: return ("C10:unsolicited-reply", "event %d %r: %r" % (i, ev, replies))
             continue
         if ev[0] != "recv":
